@@ -76,7 +76,31 @@ func errIs(x *Exec, st *State, fr *Frame, in ssa.Instruction, fn *ssa.Function, 
 	k(st, Term{and(not(eq(a.S, "0")), eq(app("kind", a.S), app("kind", b.S))), types.Typ[types.Bool]})
 }
 
+// metadata.FromIncomingContext: the gRPC transport lower-cases every metadata key
+// (documented behaviour of google.golang.org/grpc/metadata), so every key k of the
+// returned MD satisfies lower(k) == k.
+func mdFromIncoming(x *Exec, st *State, fr *Frame, in ssa.Instruction, fn *ssa.Function, args []Val, k callCont) {
+	x.used("grpc metadata.FromIncomingContext (keys of incoming metadata are lower-case; ok implies non-nil map)")
+	mdT := fn.Signature.Results().At(0).Type()
+	mt := mdT.Underlying().(*types.Map)
+	md := x.declare(st, "md", "Int")
+	ok := x.declare(st, "md_ok", "Bool")
+	x.assume(st, and(app("<=", "0", md), app("<", md, st.allocCtr), implies(ok, not(eq(md, "0")))))
+	q := x.fresh("k")
+	x.assume(st, "(forall (("+q+" Int)) (=> (select "+x.mapDom(st, mt, md)+" "+q+") (= (str_lower "+q+") "+q+")))")
+	k(st, Tuple{Term{md, mdT}, Term{ok, types.Typ[types.Bool]}})
+}
+
+func strToLower(x *Exec, st *State, fr *Frame, in ssa.Instruction, fn *ssa.Function, args []Val, k callCont) {
+	x.used("strings.ToLower (idempotent lower-casing function)")
+	x.reg.axioms = appendUniq(x.reg.axioms, "(assert (forall ((s Int)) (! (and (= (str_lower (str_lower s)) (str_lower s)) (>= (str_lower s) 0)) :pattern ((str_lower s)))))")
+	s := args[0].(Term)
+	k(st, Term{x.define(st, "lower", "Int", app("str_lower", s.S)), s.T})
+}
+
 var models = map[string]modelFn{
+	"google.golang.org/grpc/metadata.FromIncomingContext": mdFromIncoming,
+	"strings.ToLower": strToLower,
 	"context.WithTimeout":  ctxDerive("context.WithTimeout", true),
 	"context.WithCancel":   ctxDerive("context.WithCancel", true),
 	"context.WithDeadline": ctxDerive("context.WithDeadline", true),
